@@ -55,6 +55,7 @@ type Op struct {
 	Hi   uint64     `json:"hi,omitempty"`
 	Max  uint64     `json:"max,omitempty"`
 	I    uint64     `json:"i,omitempty"`
+	Step uint64     `json:"step,omitempty"` // cdel/fdel/fcsnap/finit: the file-system step that fails (f...) - unused for c...
 }
 
 // Out is what the disk store answered. E: 0 ok, 1 compacted, 2 unavailable, 3 snapshot out of date, 9 other error.
@@ -98,6 +99,7 @@ type Case struct {
 	Clob     []uint64       `json:"clob"`     // first indexes of files hit by an earlier-file conflict at slot > 0
 	Unrep    []int          `json:"unrep"`    // ops (fsave) whose injected zero-fill write error Save did not report
 	UnrepDel []int          `json:"unrepdel"` // ops (fsave) whose injected file-removal error Save did not report
+	UnrepDB  []int          `json:"unrepdb"`  // ops (fdel) whose injected file-removal error DeleteBefore did not report
 	Stats    map[string]int `json:"stats"`
 }
 
@@ -378,7 +380,7 @@ func (w *world) apply(op *Op) (o Out) {
 				w.fail("term", "Term(%d) = (%d, err %d), reference %d", op.I, t, o.E, rt)
 			}
 		}
-	case "csnap":
+	case "csnap", "ccsnap", "fcsnap":
 		cs := &raftpb.ConfState{}
 		if op.Snap.V != nil {
 			cs.Voters = append([]uint64{}, op.Snap.V...)
@@ -388,7 +390,18 @@ func (w *world) apply(op *Op) (o Out) {
 			data = payload(8, op.Snap.D)
 		}
 		mf, ml := msFirstLast(w.ms)
-		o.E = errCode(w.ds.CreateSnapshot(op.I, cs, data))
+		switch op.K {
+		case "ccsnap", "fcsnap":
+			var t uint64
+			if op.I >= mf && op.I <= ml {
+				t, _ = w.full.Term(op.I)
+			}
+			var ns raftpb.Snapshot
+			ns.Metadata.Index, ns.Metadata.Term, ns.Metadata.ConfState, ns.Data = op.I, t, *cs, data
+			o.E = errCode(w.metaOp(op, &ns, op.I >= mf && op.I <= ml, func() error { return w.ds.CreateSnapshot(op.I, cs, data) }))
+		default:
+			o.E = errCode(w.ds.CreateSnapshot(op.I, cs, data))
+		}
 		want := 0
 		if op.I < mf {
 			want = 3
@@ -406,9 +419,14 @@ func (w *world) apply(op *Op) (o Out) {
 				w.snap, w.si = s, op.I
 			}
 		}
-	case "del":
+	case "del", "cdel", "fdel":
 		mf, _ := msFirstLast(w.ms)
-		err := w.ds.DeleteBefore(op.I)
+		var err error
+		if op.K == "del" {
+			err = w.ds.DeleteBefore(op.I)
+		} else {
+			err = w.delOp(op)
+		}
 		if err != nil {
 			o.E = 9
 		}
@@ -418,8 +436,8 @@ func (w *world) apply(op *Op) (o Out) {
 		if f < mf || (f > op.I && f > mf) {
 			w.fail("del", "DeleteBefore(%d): first index %d -> %d", op.I, mf, f)
 		}
-	case "reopen", "crash":
-		if op.K == "reopen" {
+	case "reopen", "crash", "finit":
+		if op.K != "crash" {
 			if err := w.ds.Close(); err != nil {
 				w.fail("reopen", "Close: %v", err)
 			}
@@ -427,6 +445,9 @@ func (w *world) apply(op *Op) (o Out) {
 			w.fdLeak = append(w.fdLeak, w.ds) // process death: nothing is flushed or closed by the store
 		}
 		mf, _ := msFirstLast(w.ms)
+		if op.K == "finit" {
+			w.initWithFault(op)
+		}
 		ds, err := raftlog.Init(w.dir, 0)
 		if err != nil {
 			w.fail("reopen", "Init after %s: %v", op.K, err)
@@ -434,6 +455,9 @@ func (w *world) apply(op *Op) (o Out) {
 			return
 		}
 		w.ds = ds
+		if w.uncompact() {
+			mf, _ = msFirstLast(w.ms)
+		}
 		w.syncCompaction()
 		f, _ := w.ds.FirstIndex()
 		// Init re-applies the prefix deletion up to the snapshot index: nothing at or above it may disappear
@@ -531,7 +555,7 @@ func (w *world) close() {
 var caseNo int
 
 func runCase(kind string, src source) *Case {
-	c := &Case{Case: caseNo, Kind: kind, Ops: []Op{}, Oracle: []string{}, OrKinds: []string{}, Clob: []uint64{}, Unrep: []int{}, UnrepDel: []int{}, Stats: map[string]int{}}
+	c := &Case{Case: caseNo, Kind: kind, Ops: []Op{}, Oracle: []string{}, OrKinds: []string{}, Clob: []uint64{}, Unrep: []int{}, UnrepDel: []int{}, UnrepDB: []int{}, Stats: map[string]int{}}
 	caseNo++
 	dir := filepath.Join(workDir(), fmt.Sprintf("c%d", c.Case))
 	_ = os.RemoveAll(dir)
